@@ -410,6 +410,9 @@ async fn add_adf_problem(
                 .unwrap()
                 .insert(running_info.clone());
 
+            #[cfg(adf_obdd_verif)]
+            crate::verif_seam::at(crate::verif_seam::Point::BlockingStart, &running_info);
+
             #[cfg(feature = "mock_long_computations")]
             std::thread::sleep(Duration::from_secs(20));
 
@@ -439,6 +442,9 @@ async fn add_adf_problem(
                 .lock()
                 .unwrap()
                 .remove(&running_info);
+
+            #[cfg(adf_obdd_verif)]
+            crate::verif_seam::at(crate::verif_seam::Point::BlockingEnd, &running_info);
 
             result
         }),
@@ -570,6 +576,9 @@ async fn solve_adf_problem(
                 .unwrap()
                 .insert(running_info.clone());
 
+            #[cfg(adf_obdd_verif)]
+            crate::verif_seam::at(crate::verif_seam::Point::BlockingStart, &running_info);
+
             #[cfg(feature = "mock_long_computations")]
             std::thread::sleep(Duration::from_secs(20));
 
@@ -602,6 +611,9 @@ async fn solve_adf_problem(
                 .lock()
                 .unwrap()
                 .remove(&running_info);
+
+            #[cfg(adf_obdd_verif)]
+            crate::verif_seam::at(crate::verif_seam::Point::BlockingEnd, &running_info);
 
             acs_and_graphs
         }),
